@@ -48,6 +48,16 @@ pub fn strip_layout(obs: &Value) -> Value {
     let mut o = obs.as_object().cloned().unwrap_or_default();
     o.remove("top");
     o.remove("tree");
+    // an empty media-data box describes nothing: a layout may write one where the other writes none (muxide does for a
+    // video-only file without samples); the compared length leaves such boxes out
+    let empty_mdat: u64 = obs
+        .get("mdat")
+        .and_then(|m| m.as_array())
+        .map(|v| v.iter().filter(|x| x.get("pl").and_then(|p| p.as_u64()) == Some(0)).count() as u64 * 8)
+        .unwrap_or(0);
+    if let Some(l) = o.get("len").and_then(|l| l.as_u64()) {
+        o.insert("len".into(), json!(l.saturating_sub(empty_mdat)));
+    }
     o.remove("mdat");
     if let Some(Value::Array(raw)) = o.get_mut("raw") {
         raw.retain(|r| {
